@@ -124,3 +124,81 @@ def is_lex_time(t, h, mi, s, ns):
         or (ns % 10 == 0 and t == base + "." + pad(ns // 10, 8))
         or t == base + "." + pad(ns, 9)
     )
+
+
+def key_at(d, j):
+    """j-th key of a dict in insertion order."""
+    return list(d.keys())[j]
+
+
+def val_at(d, j):
+    return list(d.values())[j]
+
+
+def same_dict(a, b):
+    return list(a.items()) == list(b.items())
+
+
+# ---------------------------------------------------------------------------------------------
+# Namespaces in XML 1.0 (third edition) sections 3-6, Clark notation "{uri}local" for expanded names
+# ---------------------------------------------------------------------------------------------
+XML_NS = "http://www.w3.org/XML/1998/namespace"
+XMLNS_NS = "http://www.w3.org/2000/xmlns/"
+
+
+def clark_split(q):
+    """Expanded name in Clark notation -> (uri | None, local)."""
+    if q.startswith("{"):
+        i = q.find("}")
+        if i > 1 and i < len(q) - 1:
+            return (q[1:i], q[i + 1:])
+    return (None, q)
+
+
+def clark_build(uri, local):
+    return "{" + uri + "}" + local
+
+
+def legal_decl(prefix, uri):
+    """A namespace declaration xmlns:prefix="uri" / xmlns="uri" is allowed (NS 1.0 section 3).
+
+    prefix None/"" is the default namespace.  The NCName-ness of the prefix is checked separately."""
+    if prefix is None or prefix == "":
+        return uri != XML_NS and uri != XMLNS_NS
+    if prefix == "xmlns":
+        return False
+    if prefix == "xml":
+        return uri == XML_NS
+    return uri != "" and uri != XML_NS and uri != XMLNS_NS
+
+
+# quantifiers: symbolic in pyvc; in replay scripts they range over a finite pool taken from the call
+_POOL = {"int": list(range(-2, 24)), "str": ["", "a", "ns0", "ns1", "xs", "xml", "xmlns"]}
+
+
+def _domain(sort):
+    if sort == "int":
+        return _POOL["int"]
+    if sort == "str":
+        return _POOL["str"]
+    if sort in ("str|None", "opt[str]"):
+        return [None] + _POOL["str"]
+    if sort == "bool":
+        return [False, True]
+    raise ValueError("replay: no finite pool for sort %r" % (sort,))
+
+
+def forall(sort, f):
+    import itertools
+
+    n = f.__code__.co_argcount
+    doms = [_domain(s) for s in (sort if isinstance(sort, list) else [sort] * n)]
+    return all(f(*xs) for xs in itertools.product(*doms))
+
+
+def exists(sort, f):
+    import itertools
+
+    n = f.__code__.co_argcount
+    doms = [_domain(s) for s in (sort if isinstance(sort, list) else [sort] * n)]
+    return any(f(*xs) for xs in itertools.product(*doms))
